@@ -216,9 +216,7 @@ def _chunk_worker(conn, cases):
         conn.close()
 
 
-def _run_isolated(cases, timeout):
-    """Run cases in one forked child; None if the child died (jitted code can corrupt memory
-    when an index is wrong, which kills the interpreter instead of raising)."""
+def _start_isolated(cases):
     import multiprocessing as mp
 
     ctx = mp.get_context("fork")
@@ -226,25 +224,35 @@ def _run_isolated(cases, timeout):
     p = ctx.Process(target=_chunk_worker, args=(b, cases))
     p.start()
     b.close()
+    return p, a
+
+
+def _finish_isolated(p, a, timeout):
+    """Records of the child, or None if it died or hung (jitted code can corrupt the heap when an
+    index is wrong, which kills or wedges the interpreter instead of raising)."""
     out = None
     try:
         if a.poll(timeout):
             out = a.recv()
     except (EOFError, OSError):
         out = None
-    p.join(5)
+    p.join(5 if out is not None else 0.1)
     if p.is_alive():
         p.kill()
         p.join()
     return out, p.exitcode
 
 
-def safe_map(cases, nproc=None, max_crashes=3):
-    """Ordered map of record_case over cases with forked workers.  If a worker dies, its cases are
-    re-run one per process to find the ones that kill the interpreter: those get an `error` record
-    (the property promises a value, not a crash).  After max_crashes such cases the rest of the
-    broken chunks is not replayed (`notrun`), the run is already a violation."""
+def safe_map(cases, nproc=None, max_crashes=3, isolate_budget=120.0):
+    """Ordered map of record_case over cases with forked workers.
+
+    If a worker dies or hangs, the unfinished chunks are re-run, each in a process of its own; chunks
+    that fail again are re-run case by case to find the cases that kill the interpreter: those get an
+    `error` record (the property promises a value, not a crash).  After max_crashes such cases, or
+    isolate_budget seconds, the remaining cases of broken chunks are marked `notrun` (the run is
+    already a violation then; the caller refuses `notrun` without an `error`)."""
     import os
+    import time
     from concurrent.futures import ProcessPoolExecutor, as_completed
     import multiprocessing as mp
 
@@ -265,23 +273,33 @@ def safe_map(cases, nproc=None, max_crashes=3):
                 results[futs[fut]] = fut.result()
             except Exception:  # BrokenProcessPool: some worker died
                 pass
-    except Exception:  # TimeoutError: a worker hangs (corrupted heap); the unfinished chunks are re-run isolated
+    except Exception:  # TimeoutError: a worker hangs; the unfinished chunks are re-run below
         pass
     procs = list(getattr(ex, "_processes", {}).values())
     ex.shutdown(wait=False, cancel_futures=True)
     for p in procs:
         if p.is_alive():
             p.kill()
+    # second chance per chunk, nproc at a time
+    broken = [k for k in range(len(chunks)) if results[k] is None]
+    info = {"chunks": len(chunks), "broken_chunks": len(broken), "crashing_cases": 0}
+    for i in range(0, len(broken), nproc):
+        started = [(k,) + _start_isolated(chunks[k]) for k in broken[i : i + nproc]]
+        for k, p, a in started:
+            out, _ = _finish_isolated(p, a, 180)
+            results[k] = out
+    # case by case for what still fails
     crashes = 0
-    for k, ch in enumerate(chunks):
+    t0 = time.time()
+    for k in broken:
         if results[k] is not None:
             continue
         out = []
-        for c in ch:
-            if crashes >= max_crashes:
+        for c in chunks[k]:
+            if crashes >= max_crashes or time.time() - t0 > isolate_budget:
                 out.append({"id": c["id"], "closed": bool(c["closed"]), "notrun": "earlier cases killed the interpreter"})
                 continue
-            r, code = _run_isolated([c], 90)
+            r, code = _finish_isolated(*_start_isolated([c]), 60)
             if r is None:
                 crashes += 1
                 out.append({"id": c["id"], "closed": bool(c["closed"]),
@@ -289,7 +307,8 @@ def safe_map(cases, nproc=None, max_crashes=3):
             else:
                 out.append(r[0])
         results[k] = out
-    return [r for ch in results for r in ch]
+    info["crashing_cases"] = crashes
+    return [r for ch in results for r in ch], info
 
 
 def _pool_chunk(cases):
